@@ -67,11 +67,11 @@ def run(case, ctx):
             raise EndRun()
         cs = getattr(det, "_change_score", None)
         if cs is not None:
-            if len(cs) != len(m.scores):
+            if len(cs) not in (len(m.scores), len(m.scores) - 1):   # (with or without the leading placeholder)
                 ctx.violation("schedule", "C11:score_schedule",
                               f"{where}: detector has computed {len(cs) - 1} change scores, the documented schedule (every {m.step} samples once both windows are full) gives {len(m.scores) - 1}; cfg={cfg}")
                 raise EndRun()
-            if len(cs) and not close(cs[-1], m.scores[-1], 1e-8):
+            if len(cs) and len(m.scores) > 1 and not close(cs[-1], m.scores[-1], 1e-8):
                 ctx.violation("score", "C11:change_score",
                               f"{where}: change score {float(cs[-1])!r}, per-component recomputation gives {m.scores[-1]!r} (components {m.last_component_scores}); cfg={cfg}")
                 raise EndRun()
